@@ -246,6 +246,9 @@ impl Ep {
                 self.phase = "mid";
             }
             "est" => {
+                if let Some(f) = self.pending_fragment.take() {
+                    self.pair.to_a.push_front(f);
+                }
                 if !self.pair.complete().await {
                     return Err("genuine DTLS handshake did not complete".into());
                 }
